@@ -568,7 +568,7 @@ def check_C10(chk):
     for m in ("LfsText.tla", "Trace_Text.tla", "Trace_Text.cfg"):
         shutil.copyfile(os.path.join(SPEC, m), os.path.join(full, m))
     tp = os.path.join(WORK, "c10_dbcs.ndjson")
-    out = harness(["text-dbcs", "--table", os.path.join(full, "dbcs_full.json"), "--out", tp])
+    out = harness(["text-dbcs", "--table", os.path.join(full, "dbcs_full.json"), "--out", tp, "--chars", char_pool()])
     chk.extra["dbcs_full"] = json.loads(out.strip().splitlines()[-1])
     text_trace_validate(chk, "c10_dbcs", tp, "complete double-byte tables", only={"CpEnc", "CpDec", "Panic"}, spec_dir=full)
     chk.assumptions += ["'LFS's tables' = Microsoft's tables as shipped in python's cp125x/cp932/cp936/cp949/cp950 codecs; a double-byte pair is "
